@@ -33,6 +33,21 @@ def ids_of(dotted: str) -> list:
     return dotted.split('.') if dotted else []
 
 
+def encapsulee_name(enc: dict):
+    """The encapsulee name in one of the forms the builder accepts: a NamespaceIds, a dotted
+    string, a '::'-delimited string or a list of identifiers."""
+    from dznpy.scoping import NamespaceIds  # pylint: disable=import-outside-toplevel
+    ids = ids_of(enc['encapsulee'])
+    form = enc.get('encapsulee_form', 'ids')
+    if form == 'dot':
+        return '.'.join(ids)
+    if form == 'colons':
+        return '::'.join(ids)
+    if form == 'list':
+        return list(ids)
+    return NamespaceIds(ids)
+
+
 def make_select(sel, order_seed: Optional[int] = None, pool: Optional[dict] = None):
     """A PortSelect for the encoded selection.  With `pool`, equal selections share one object
     across configurations - the way a user builds several configurations from the same pieces."""
@@ -114,7 +129,7 @@ def make_configuration(enc: dict, fc, order_seed: Optional[int] = None,
     return Configuration(
         dezyne_filename=enc.get('filename', 'Model.dzn'), ast_fc=fc,
         output_basename_suffix=enc.get('suffix', 'Shell'),
-        fqn_encapsulee_name=NamespaceIds(ids_of(enc['encapsulee'])),
+        fqn_encapsulee_name=encapsulee_name(enc),
         ports_cfg=make_ports_cfg(enc, order_seed, pool),
         facilities_origin=FacilitiesOrigin.CREATE if enc.get('origin', 'create') == 'create'
         else FacilitiesOrigin.IMPORT,
